@@ -145,9 +145,9 @@ func genHistory(rng *rand.Rand) *History {
 
 var notifySeqs = [][]string{
 	{"change", "change"}, {"change", "error"}, {"error", "change"}, {"error", "error"},
-	// triples: at most one notification after the first error (a third one would still be waiting when the
-	// resolver closes its channel on shutdown — outside the provider contract)
-	{"change", "change", "change"}, {"change", "change", "error"}, {"change", "error", "change"}, {"change", "error", "error"},
+	// triples: nothing may be started after a watch error could have been consumed (the resolver closes its
+	// channel on shutdown), and the third send starts only when the loop has drained the first: error last
+	{"change", "change", "change"}, {"change", "change", "error"},
 }
 
 // genDoubleNotify: two or three watcher notifications back to back while the run loop is NOT in its select:
@@ -346,29 +346,21 @@ func (r *run) check() {
 			}
 		}
 	}
-	// (2b) a change notification that was delivered (and no watch error delivered before it) is followed by a
-	// new Retrieve: the configuration is fetched again after it changed
-	errDelivered := false
+	// (2b) back-to-back notifications that begin with a configuration change: the configuration is retrieved
+	// again afterwards (how many reloads several pending changes cause is not prescribed: counted, not judged)
 	for i, e := range evs {
-		if e.Kind != "notify-delivered" {
+		if e.Kind != "wseq" || !strings.Contains(e.Info, "wseq(change") || startFailed || badConfig || stopFailedReload {
 			continue
 		}
-		if e.Info == "error" {
-			errDelivered = true
-			continue
-		}
-		if errDelivered || startFailed || badConfig || stopFailedReload {
-			continue
-		}
-		again := false
+		again := 0
 		for _, x := range evs[i+1:] {
 			if x.Kind == "retrieve" {
-				again = true
-				break
+				again++
 			}
 		}
-		if !again {
-			r.problem("reload-ignored", fmt.Sprintf("a configuration-change notification was delivered while the collector was starting/reloading (event %d) and the configuration was never retrieved again", e.Seq), "round", "wseq")
+		r.c.Observe("reloads_after_back_to_back_notifications", int64(again))
+		if again == 0 {
+			r.problem("reload-ignored", fmt.Sprintf("configuration-change notifications were delivered from inside %s of generation %d (event %d) and the configuration was never retrieved again", e.Name, e.Gen, e.Seq), "round", "wseq")
 		}
 	}
 	// (3) provider
